@@ -159,4 +159,35 @@ CHECKS = {
             dict(test="TestC01Bin", unit="bin", kind="rapid", checks=(96, 1600), shards=(8, 16), bin=True),
         ],
     ),
+    "C10": dict(
+        level="exploration",
+        technique="model-based property testing (rapid): Read/Seek/ReadAt sequences on the decrypting view vs. an independent AES-CBC reference decryptor (cross-checked against the openssl CLI)",
+        rule="16-byte keys, region tables with 2..255 plain regions (adjacent regions, gaps of 0/1/few sectors, second region at sector 1, last region ending at or beyond the "
+             "file), images of 2..600 sectors with random content (1/6 with a partial trailing sector), header clearing on/off, the underlying file's Read cut at seeded "
+             "points in 2/3 of the cases; 1..30 operations with offsets relative to region borders / table end / file end (deltas -2049..+2049) or absolute, lengths "
+             "1..64 KiB incl. 15/16/17, 2047/2048/2049, 3 sectors +-1; every result compared with the reference plaintext under the io.Reader/io.ReaderAt/io.Seeker "
+             "contracts, then io.ReadAll of the whole view; invalid tables (count 0/1, first start != 0, end <= start, decreasing, table beyond the file, count 4096) "
+             "must be rejected by the constructor. non-trivial = a read that starts or ends inside an encrypted sector, or spans a region border, or touches the cleared "
+             "table; positional and sequential counted separately; distinct by (kind, offset mod 2048, length, region count, clearing)",
+        assumptions=["crypto/aes and crypto/cipher are trusted; the reference's key derivation and sector decryption agree with the openssl CLI (refcrypt self-test)",
+                     "whether a plain region's End sector itself is decrypted is a don't-care fixed consistently per run (DESIGN 2.1)"],
+        units=[
+            dict(test="TestC10Lib", unit="lib", kind="rapid", checks=(4000, 100000), shards=(8, 16)),
+        ],
+    ),
+    "C11": dict(
+        level="exploration",
+        exhaustive_whole=True,
+        technique="exhaustive enumeration of the layout product against the harness's own decision table + reference decryptor; library and network routes",
+        rule="layouts from the product {PS3ISO, ps3iso, Ps3Iso, PS3ISOX, GAMES} x {.iso,.ISO,.Iso,.bin} x nesting 0..2 below the PS3ISO element x {no key, adjacent, REDKEY, both "
+             "with different keys, malformed adjacent, malformed adjacent + REDKEY} x {no watermark, encrypted 3k3y watermark with embedded key, decrypted watermark} x file length "
+             "{0xF6F, 0xF70, 0x106F, 0x1070, 8 sectors, 8 sectors+100} x {directly under the root, below a prefix directory}; both tiers enumerate the whole product (12 960 layouts). the "
+             "view obtained through FS.Open (2/3) or the network server (1/3) must equal the reference chosen by "
+             "the decision table (adjacent key > REDKEY key > embedded 3k3y key + mask > mask only > identity), read as a whole and through 13 windows overlapping 0xF70..0x1070 by "
+             "ReadAt, Seek+Read and both network read commands; files opened for writing read back and store bytes verbatim. non-trivial = every layout; distinct by all factors",
+        assumptions=["don't-cares: masking of the 3k3y area when a key file applies as well; a malformed key may fail the open or fall back to another documented source; End-sector reading as in C10"],
+        units=[
+            dict(test="TestC11Product", unit="product", kind="enum", shards=(16, 16)),
+        ],
+    ),
 }
